@@ -28,12 +28,23 @@ def _mon_chunk(args):
     seed, texts, H = args
     n = 0
     fails = []
+    r = random.Random(seed)
     for t in texts:
-        c, bad = oracles.wellformed_violations(t, H)
-        n += c
-        for b in bad:
-            b["text"] = t if isinstance(t, str) else "\n%%% next file\n".join(t)
-            fails.append(b)
+        # every third program also with another stop criterion and a small imin: the loop then goes on after satisfiable calls
+        runs = [{}]
+        if r.random() < 0.34:
+            runs.append({"istop": r.choice(["UNSAT", "UNKNOWN"]), "imin": r.choice([0, 1]), "imax": H + 1})
+        for kw in runs:
+            c, bad = oracles.wellformed_violations(t, H, **kw)
+            n += c
+            for b in bad:
+                b["text"] = t if isinstance(t, str) else "\n%%% next file\n".join(t)
+                if kw:
+                    b["options"] = kw
+                    b["text"] += "\n%%% run with " + " ".join("{}={}".format(k, v) for k, v in sorted(kw.items()))
+                fails.append(b)
+            if bad:
+                break
     return n, fails
 
 def search(ctx, deep):
